@@ -3,7 +3,7 @@
    case:   <shards> <cap|0> <ttl|0> <tti|0>  then ops
              I k v c | T k v c d | A d | G k | P k
              IT | IB n | IC n d K | SD | ST n | SC n d K | IS | AS
-             SN gap rtti | M | C
+             SN gap rtti | SB gap rttl rtti | M | C
    output: one token group per op, joined by " ; "
    time unit: one tick (the harness uses 1 ms); the clock starts at 1000 *)
 open Model_iter
@@ -24,7 +24,8 @@ let rec parse = function
   | ("IC" | "SC") :: b :: d :: k :: r ->
       OIter (nat_of_int (int_of_string b), n d, nat_of_int (int_of_string k)) :: parse r
   | ("IS" | "AS") :: r -> OIterSnap :: parse r
-  | "SN" :: g :: t :: r -> OSnap (n g, optn t) :: parse r
+  | "SN" :: g :: t :: r -> OSnap (n g, None, optn t) :: parse r
+  | "SB" :: g :: l :: t :: r -> OSnap (n g, optn l, optn t) :: parse r
   | "M" :: r -> OMaint :: parse r
   | "C" :: r -> OCost :: parse r
   | t :: _ -> failwith ("bad op token " ^ t)
